@@ -127,6 +127,7 @@ class QSpec:
     new_cid_len: int = -1         # -1: same length as the server's CID
     new_cid_prefix: str = ""      # "" | "extend" (new CID = old CID + more bytes) | "truncate" (new CID = a proper prefix of the old one)
     client_new_cid_at: int = -1   # same, issued by the client, server switches
+    path_swaps: int = 0           # so many 1-RTT datagrams are overtaken by their successor on the path (shown swapped in the capture), see reorder_on_path
     late_hs_ack: bool = False     # after the server's HANDSHAKE_DONE the capture still shows a client datagram Handshake(ACK) + 1-RTT(STREAM) that was in flight (capture near the server)
     crypto_retx: str = ""         # "" | "ch" | "sh" | "both": the ClientHello Initial(s) / the server's Initial+Handshake flight are sent a second time (loss recovery: same CRYPTO offsets, new packet numbers)
     new_cid_retire: int = 0       # Retire Prior To of the NEW_CONNECTION_ID frames (0, or 1 = "retire the CID you are using now")
@@ -213,6 +214,8 @@ def build_qconn(spec: QSpec, rng) -> QConn:
     w = qf.W(rng, spec.varint_policy)
     assert spec.suite in spec.offered
     cr = rb(32)
+    if 0 < spec.odcid_len < 4 and (spec.s_scid_len < spec.odcid_len or spec.new_cid_prefix == "truncate" or 0 <= spec.new_cid_len < spec.odcid_len):
+        spec.odcid_len = 8          # sender validity (see random_qspec): a 1..3-byte original DCID only together with server connection IDs at least as long
     odcid = rb(spec.odcid_len)
     c_scid = rb(spec.c_scid_len)
     s_scid = rb(spec.s_scid_len)
@@ -445,9 +448,45 @@ def build_qconn(spec: QSpec, rng) -> QConn:
                 assert last_pn.get((g.dir, pi.space), -1) < pi.pn, ("packet numbers out of order on the wire", g.dir, pi.space, pi.pn)
                 last_pn[(g.dir, pi.space)] = pi.pn
     info["all_cids"] = [c for c in (info["odcid"], info["c_scid"], info["s_scid"], info.get("retry_scid"), info.get("new_server_cid"), info.get("new_client_cid")) if c]
+    info["reordered"] = reorder_on_path(dg, spec.path_swaps, rng) if spec.path_swaps else 0
     expect = [(g.dir, g.stream) for g in dg if g.stream]
     expect_meta = [(g.dir, g.meta) for g in dg if g.meta]
     return QConn(spec, dg, expect, expect_meta, keylog, cr, info, ref_keys)
+
+
+def reorder_on_path(dg, nswaps, rng):
+    """a 1-RTT datagram overtaken on the path by the next datagram of its direction (the capture shows them swapped).  Only swaps after which every packet number
+    still decodes (RFC 9000 A.3) against what a receiver has seen by then are made, both packets in the same key phase as their neighbours: the capture stays one
+    that the receiving endpoint itself could process.  -> number of swaps made"""
+    def only_short(g):
+        return len(g.packets) == 1 and not g.packets[0].long and g.packets[0].space == "app"
+    made = 0
+    for _ in range(nswaps * 4):
+        if made >= nswaps:
+            break
+        idx = [i for i in range(len(dg) - 1) if only_short(dg[i]) and only_short(dg[i + 1]) and dg[i].dir == dg[i + 1].dir
+               and dg[i].packets[0].key_phase == dg[i + 1].packets[0].key_phase]
+        if not idx:
+            break
+        i = rng.choice(idx)
+        d = dg[i].dir
+        same = [g for g in dg if g.dir == d and only_short(g)]
+        k = same.index(dg[i])
+        if k == 0 or same[k - 1].packets[0].key_phase != dg[i].packets[0].key_phase or (k + 2 < len(same) and same[k + 2].packets[0].key_phase != dg[i].packets[0].key_phase):
+            continue
+        dg[i], dg[i + 1] = dg[i + 1], dg[i]
+        largest, ok = None, True
+        for g in dg:
+            for pi in g.packets:
+                if g.dir == d and pi.space == "app" and pi.pn >= 0:
+                    if rfc_decode(largest or 0, pi.pn & ((1 << 8 * pi.pn_len) - 1), 8 * pi.pn_len) != pi.pn:
+                        ok = False
+                    largest = pi.pn if largest is None else max(largest, pi.pn)
+        if not ok:
+            dg[i], dg[i + 1] = dg[i + 1], dg[i]
+            continue
+        made += 1
+    return made
 
 
 # ------------------------------------------------------------------ random specs
@@ -500,10 +539,42 @@ def random_app(rng, n, w=None, stream_heavy=True):
                 if f[0] == "stream":
                     f[3]["explicit_len"] = True
         out.append((d, [frames]))
+        if rng.random() < 0.1:
+            # the same message sent twice in a row (a periodic status line, a retried request): two datagrams of one direction whose stream data - and with it
+            # everything an exporter rebuilds from it - is byte-identical; only packet number and stream offset differ
+            sid = 0 if d == "c" else 3
+            data = rng.randbytes(rng.choice([1, 18, 300]))
+            for _ in range(2):
+                off = offs.get((d, sid), 0)
+                out.append((d, [[("stream", sid, data, {"off": off, "fin": False, "explicit_len": rng.random() < 0.5})]]))
+                offs[(d, sid)] = off + len(data)
     return out
 
 
-def random_qspec(rng, napp=None, avoid=()):
+def bulk_app(rng, n, w=None):
+    """a plain transfer: one sender, one stream, one STREAM frame per datagram at contiguous offsets, the peer answering now and then with an ACK-only datagram or a
+    short message - what most real QUIC traffic looks like, and the pattern in which a datagram overtaken on the path leaves a hole that is filled exactly"""
+    w = w or qf.W(rng, "min")
+    d = rng.choice("cs")
+    o = "s" if d == "c" else "c"
+    sid, osid = (0, 3) if d == "c" else (3, 0)
+    out, off, ooff = [], 0, 0
+    for i in range(n):
+        if i and rng.random() < 0.2:
+            if rng.random() < 0.6:
+                out.append((o, [[("raw",) + qf.ack(w, rng.randrange(0, 50), 0, 0)]]))
+            else:
+                msg = rng.randbytes(rng.randrange(1, 40))
+                out.append((o, [[("stream", osid, msg, {"off": ooff or None, "fin": False, "explicit_len": True})]]))
+                ooff += len(msg)
+            continue
+        data = rng.randbytes(rng.choice([1, 100, 1000, 1200]))
+        out.append((d, [[("stream", sid, data, {"off": off if off or rng.random() < 0.5 else None, "fin": False, "explicit_len": rng.random() < 0.5})]]))
+        off += len(data)
+    return out
+
+
+def random_qspec(rng, napp=None, avoid=(), bulk=None):
     """avoid: trigger names of listed open findings that must not be generated (base class)"""
     suite = rng.choice(list(SUITES))
     s = QSpec(suite=suite)
@@ -542,7 +613,7 @@ def random_qspec(rng, napp=None, avoid=()):
     s.varint_policy = rng.choice(["min", "min", "rand", 2, 4, 8])
     w = qf.W(rng, s.varint_policy)
     n = napp if napp is not None else rng.choice([0, 1, 2, 5, 12, 30])
-    s.app = random_app(rng, n, w)
+    s.app = bulk_app(rng, max(n, 6), w) if (bulk if bulk is not None else rng.random() < 0.12) and n else random_app(rng, n, w)
     if rng.random() < 0.4 and n:
         s.key_updates = tuple(sorted(rng.sample(range(n), min(n, rng.choice([1, 1, 2, 3, 4, 6])))))
     if rng.random() < 0.3 and n and s.s_scid_len:
@@ -581,6 +652,7 @@ def random_qspec(rng, napp=None, avoid=()):
     s.token = rng.randbytes(rng.choice([0, 0, 16]))
     s.crypto_retx = rng.choice(["", "", "", "ch", "sh", "both"])
     s.late_hs_ack = rng.random() < 0.25
+    s.path_swaps = rng.choice([0, 0, 0, 1, 2])
     if 0 < s.odcid_len < 4:
         # sender validity: an observer keeps the original DCID among the server's connection IDs; a 1..3-byte one that is LONGER than the ID the client really
         # uses afterwards would match the bytes behind it with probability 2^-8..2^-24 per packet, and then nobody without the server's state could tell where
